@@ -137,3 +137,11 @@ def event_loop(prog):
     """JobServer::block_on: the body that calls select() and polls the root future."""
     return the([b for b in bodies_calling(prog, r"nix::sys::select::select") if BA.of(b).calls(r".*future::future::Future::poll")],
                "calls select and Future::poll")
+
+
+def ifchange_verdict(prog):
+    """redo-ifchange's dirtiness callback (today the fn `should_build`; it may equally be a closure handed to
+    builder::run): the bin-unit body that calls the shared deps::is_dirty with the default (persisting) callbacks,
+    i.e. without building its own DirtyCallbacks as redo-ood does."""
+    c = [b for b in bodies_calling(prog, r"deps::is_dirty", unit="bin") if not BA.of(b).calls(r"deps::DirtyCallbacksBuilder::.*")]
+    return the(c, "bin-unit body that calls deps::is_dirty with the default callbacks (redo-ifchange's should_build)")
